@@ -64,6 +64,11 @@ OPTS = {'stale_attempt': False, 'preempt': False, 'token_flip': False, 'dup_repo
 
 
 def check(tier, seed, procs):
+    # statement-level interleavings of the lifecycle procedures (vf/txpairs.py), e.g. the same completion report handled twice
+    # at once while a shared child's other parent still runs; every interleaving must end like some serial order
+    from vf import txpairs
+
+    phase = txpairs.run_phase(tier, procs, ('C01', 'C06', 'C41'))
     n = 3 if tier == 'quick' else 4
     _, setups = gen(n, tier)
     if tier != 'quick':
@@ -73,11 +78,16 @@ def check(tier, seed, procs):
     cov = bf.coverage(res, f'all DAGs on {n} jobs x update split x always-run choices x parent-reference style (update-relative / absolute ids) = {len(setups)} programs; depth {depth}; '
                            f'ops: client requests of update 2, scheduler sweep, worker success/failure, canceller sweeps',
                       {'programs': len(setups)})
-    return {'coverage': cov, 'violations': res.violations, 'assumptions': bf.ASSUME,
-            'vacuous': None if res.states > 500 else f'only {res.states} states'}
+    out = {'coverage': cov, 'violations': res.violations, 'assumptions': bf.ASSUME,
+           'vacuous': None if res.states > 500 else f'only {res.states} states'}
+    return txpairs.merge_into(out, phase)
 
 
 def replay(obj):
+    if 'txpair' in obj:
+        from vf import txpairs
+
+        return txpairs.replay(obj)
     from vf import dbmc
 
     v = dbmc.replay_history(bf.Family, (sorted(MONITORS), gen(3, 'thorough')[1] + gen(4, 'thorough')[1], 'thorough', OPTS), obj['history'])
